@@ -149,6 +149,7 @@ fn cli_programs() -> Vec<CliProg> {
         CliProg { name: "runtime error with replies left over", text: "10 INPUT A\n20 PRINT 1 / (A - 5)\n30 INPUT B\n", replies: "5\nPRINT 99\n10 PRINT 77\nRUN\n", analysis_error: false },
         CliProg { name: "tabs inside literal text", text: "10 PRINT \"NAME\tQTY\";T\n20 READ A$, B$: PRINT A$;\"|\";B$\n30 REM a\tb\n40 DATA \"x\ty\", p\tq\n", replies: "", analysis_error: false },
         CliProg { name: "comparison chains and nested calls", text: "10 A$ = \"NO\": B$ = \"NO\"\n20 PRINT A$ = B$ = 1; \"X\" < \"Y\" = 1 < 2\n30 IF A$ = \"NO\" = 0 THEN PRINT \"no\" ELSE PRINT \"yes\"\n40 PRINT INT(INT(INT(INT(INT(INT(INT(INT(INT(INT(INT(INT(INT(INT(INT(INT(INT(INT(INT(INT(INT(INT(INT(INT(INT(INT(INT(INT(INT(INT(INT(INT(INT(INT(INT(INT(INT(INT(INT(INT(7.5))))))))))))))))))))))))))))))))))))))));Z\n", replies: "", analysis_error: false },
+        CliProg { name: "warnings while an output line is unfinished", text: "10 PRINT \"TOTAL=\";\n20 PRINT X\n30 PRINT \"A\";: PRINT B(1);: PRINT \"z\"\n", replies: "", analysis_error: false },
         CliProg { name: "long unbroken output", text: "10 FOR I = 1 TO 120: PRINT \"xyz\";: NEXT I\n20 PRINT L\n", replies: "", analysis_error: false },
     ]
 }
